@@ -83,6 +83,18 @@ var zzOdds = []zzOdd{
 	{Name: "ill-formed portion variable", Script: "vars {\nportion $p\n}\nsend [USD/2 10] (\n  source = @world\n  destination = {\n    $p to @a\n    remaining to @b\n  }\n)\n", Vars: map[string]string{"p": "150%"}},
 	{Name: "number variable and arithmetic", Script: "vars {\nnumber $n\n}\nset_tx_meta(\"k\", $n + 1)\nsend [USD/2 1] (\n  source = @world\n  destination = @b\n)\n", Vars: map[string]string{"n": "18446744073709551616"}},
 	{Name: "number variable ill-formed", Script: "vars {\nnumber $n\n}\nset_tx_meta(\"k\", $n)\nsend [USD/2 1] (\n  source = @world\n  destination = @b\n)\n", Vars: map[string]string{"n": "\"abc\""}},
+	{Name: "number variable is JSON null", Script: "vars {\nnumber $n\n}\nset_tx_meta(\"k\", $n)\nsend [USD/2 1] (\n  source = @world\n  destination = @b\n)\n", Vars: map[string]string{"n": "null"}},
+	{Name: "number variable is JSON true", Script: "vars {\nnumber $n\n}\nset_tx_meta(\"k\", $n)\nsend [USD/2 1] (\n  source = @world\n  destination = @b\n)\n", Vars: map[string]string{"n": "true"}},
+	{Name: "number variable is JSON array", Script: "vars {\nnumber $n\n}\nset_tx_meta(\"k\", $n)\nsend [USD/2 1] (\n  source = @world\n  destination = @b\n)\n", Vars: map[string]string{"n": "[]"}},
+	{Name: "number variable is JSON object", Script: "vars {\nnumber $n\n}\nset_tx_meta(\"k\", $n)\nsend [USD/2 1] (\n  source = @world\n  destination = @b\n)\n", Vars: map[string]string{"n": "{}"}},
+	{Name: "number variable is JSON fraction", Script: "vars {\nnumber $n\n}\nset_tx_meta(\"k\", $n)\nsend [USD/2 1] (\n  source = @world\n  destination = @b\n)\n", Vars: map[string]string{"n": "1.5"}},
+	{Name: "number variable is JSON exponent", Script: "vars {\nnumber $n\n}\nset_tx_meta(\"k\", $n)\nsend [USD/2 1] (\n  source = @world\n  destination = @b\n)\n", Vars: map[string]string{"n": "1e3"}},
+	{Name: "number variable is JSON empty", Script: "vars {\nnumber $n\n}\nset_tx_meta(\"k\", $n)\nsend [USD/2 1] (\n  source = @world\n  destination = @b\n)\n", Vars: map[string]string{"n": ""}},
+	{Name: "number variable is JSON padded", Script: "vars {\nnumber $n\n}\nset_tx_meta(\"k\", $n)\nsend [USD/2 1] (\n  source = @world\n  destination = @b\n)\n", Vars: map[string]string{"n": " 7 "}},
+	{Name: "number variable is JSON negative zero", Script: "vars {\nnumber $n\n}\nset_tx_meta(\"k\", $n)\nsend [USD/2 1] (\n  source = @world\n  destination = @b\n)\n", Vars: map[string]string{"n": "-0"}},
+	{Name: "number variable is JSON negative", Script: "vars {\nnumber $n\n}\nset_tx_meta(\"k\", $n)\nsend [USD/2 1] (\n  source = @world\n  destination = @b\n)\n", Vars: map[string]string{"n": "-12"}},
+	{Name: "monetary variable amount is JSON null", Script: "vars {\nmonetary $m\n}\nsend $m (\n  source = @world\n  destination = @b\n)\n", Vars: map[string]string{"m": "USD/2 null"}},
+	{Name: "number from metadata is JSON null", Script: "vars {\nnumber $n = meta(@cfg, \"n\")\n}\nset_tx_meta(\"k\", $n)\nsend [USD/2 1] (\n  source = @world\n  destination = @b\n)\n", Meta: map[string]metadata.Metadata{"cfg": {"n": "null"}}},
 	{Name: "fail statement", Script: "fail\n"},
 	{Name: "print and metadata statements", Script: "vars {\nmonetary $m\n}\nprint $m\nset_tx_meta(\"a\", $m)\nset_account_meta(@x, \"b\", $m)\nsend $m (\n  source = @world\n  destination = @x\n)\n", SymMon: map[string]string{"m": "USD/2"}},
 	{Name: "save arithmetic", Script: "vars {\nmonetary $x\nmonetary $y\nmonetary $m\n}\nsave $x - $y from @a\nsend $m (\n  source = @a\n  destination = @b\n)\n", SymMon: map[string]string{"x": "USD/2", "y": "USD/2", "m": "USD/2"}, SymBal: [][2]string{{"a", "USD/2"}}},
